@@ -37,11 +37,11 @@ Proof. exact label_truthful. Qed.
 
 (* get_theta(i, n, formL, formR) on canonically labelled sites: exponent formL on the left end, exactly 1 (= 2 half
    units) on each of the n-1 inner bonds, formR on the right end -- any n >= 2, any stored forms, any window
-   (for infinite bc also across the unit-cell boundary); for n = 1 the code returns the 'Th' form *)
+   (for infinite bc also across the unit-cell boundary); n = 1 as documented: s^formL Gamma s^formR *)
 Theorem T07_theta_exponents : forall fin st i n ss fL fR,
   Forall canonical st -> window fin st i n = Some ss ->
   ((2 <= n)%nat -> get_theta fin st i n fL fR = Some (fL, repeat 2 (n - 1), fR)) /\
-  (n = 1%nat -> get_theta fin st i n fL fR = Some (2, [], 2)).
+  (n = 1%nat -> get_theta fin st i n fL fR = Some (fL, [], fR)).
 Proof. exact theta_exponents. Qed.
 
 Theorem T07_window_infinite : forall st, st <> [] -> forall n i, exists ss, window false st i n = Some ss.
